@@ -278,10 +278,29 @@ GEN = os.path.join(COQDIR, "gen")
 
 # ---------------------------------------------------------------------------- known findings
 def load_known():
-    if not os.path.exists(KNOWN):
-        return []
-    with open(KNOWN) as f:
-        return json.load(f).get("findings", [])
+    """known_findings.json (the committed, canonical list) plus the per-property fragments
+    findings/Cxx.json from which it is merged (tools/merge_findings.py); an entry marked fixed in the
+    canonical file is never reopened by a fragment.  Nothing is written at run time."""
+    out = {}
+    if os.path.exists(KNOWN):
+        with open(KNOWN) as f:
+            for k in json.load(f).get("findings", []):
+                out[k["id"]] = k
+    fd = os.path.join(VERIF, "findings")
+    if os.path.isdir(fd):
+        for name in sorted(os.listdir(fd)):
+            if not name.endswith(".json"):
+                continue
+            try:
+                with open(os.path.join(fd, name)) as f:
+                    frag = json.load(f)
+            except Exception:
+                continue
+            for k in (frag.get("findings", []) if isinstance(frag, dict) else frag):
+                if k.get("id") in out and out[k["id"]].get("status") == "fixed":
+                    continue
+                out[k["id"]] = k
+    return list(out.values())
 
 
 # ---------------------------------------------------------------------------- the generic driver
